@@ -440,11 +440,11 @@ AChains(m, full, seed, mod) ==
   Chains(s, c.ty, 1, Tops)
   \cup (IF full THEN two
         ELSE {p \in two : (s = "E" /\ p[1] \in Plain /\ p[2] = "start") \/ Hash(m, p, seed) % mod = 0})
-\* pairs of different arrival forms (thorough only) are placed in the plain positions only
+\* pairs of different arrival forms (thorough only) are placed in one plain position only
 PairChains(m) ==
   LET c == Cores[m[1]]
       s == ASort(m) IN
-  IF s = "E" THEN {<<"definfer", "start">>, <<"global">>} ELSE {<<"start">>}
+  IF s = "E" THEN {<<"definfer", "start">>} ELSE {<<"start">>}
 IsPairOnly(m) == ~InBasic(m)
 
 AIds(full, pairs, seed, mod) ==
